@@ -146,16 +146,17 @@ Fixpoint mrun (c : conf) (s : st) (ops : list mop) : st * list event :=
 (* ---- calls ---- *)
 Inductive outcome := OEmit (b : batch) | ORaise | OFinish.
 
-(* one lockstep turn of a stream: the input the client sends (None: producer tick, always inline), whether
-   the server's _coerce_input_batch refuses it, whether the client abandons its read at a log batch preceding the data batch (process() logs at EXCEPTION
-   level, or the client's on_log callback raises) -- `ss_exclog` --; formerly: logs at EXCEPTION level before its data
-   batch, what process() does, whether the caller releases the output right away *)
+(* one lockstep turn of a stream: the input the client sends (None: producer tick, always inline); whether the
+   server's _coerce_input_batch refuses it; whether the client abandons its read at a log batch that precedes the
+   data batch (`ss_exclog`: process() logs at EXCEPTION level, or the client's on_log callback raises on a log);
+   what process() does; whether the caller releases the output right away *)
 Record sstep := mk_sstep { ss_in : option batch; ss_bad : bool; ss_exclog : bool; ss_out : outcome; ss_rel : bool }.
 
 Inductive call :=
 | CUnary (req : option batch) (exclog : bool) (res : option batch)
      (* req = Some b: a client that offers the request batch to shm (the Python client never does);
-        exclog: the client abandons the read at a log batch before the result (EXCEPTION-level log, or on_log raises); res = None: the method raises *)
+        exclog: the client abandons the read at a log batch before the result (EXCEPTION-level log, or its
+        on_log callback raises); res = None: the method raises *)
 | CStream (steps : list sstep)          (* the turns the client drives, then close()/cancel() *)
 | CRelease (i : nat).                   (* the caller releases the i-th shm-backed batch it still holds
                                            (release() of a batch that arrived inline does nothing) *)
